@@ -90,8 +90,8 @@ type FactoryAware struct {
 	Seen int
 }
 
-func (f *FactoryAware) Naming() string { return f.Nm }
-func (f *FactoryAware) Bind(r *Run)    { f.Log = r.Log }
+func (f *FactoryAware) Naming() string                                      { return f.Nm }
+func (f *FactoryAware) Bind(r *Run)                                         { f.Log = r.Log }
 func (f *FactoryAware) PostProcessComponentFactory(container.Factory) error { return nil }
 func (f *FactoryAware) PostProcessDefinitionRegistry(container.DefinitionRegistry, any, string) error {
 	return nil
